@@ -844,6 +844,9 @@ fn case_dict(o: &mut Out, variant: &str, text: &[u8], pats: &[Vec<u8>], scratch:
                 }
             }
         }
+        let mut items: Vec<Value> = vec![];
+        let mut answers = 0u64;
+        let mut failed = None;
         for p in prefixes {
             let r = guard(|| {
                 let m = if p.is_empty() { None } else { Some(d.sa_match_continuation(0, n, 0, &p)) };
@@ -864,16 +867,20 @@ fn case_dict(o: &mut Out, variant: &str, text: &[u8], pats: &[Vec<u8>], scratch:
                 Some((lo, hi, res))
             });
             match r {
-                Ok(Some((lo, hi, res))) => o.ev(
-                    json!({"op":"eqr","p":bytes_json(&p),"lo":lo,"hi":hi,"chs":bytes_json(&chs),"res":res}),
-                    chs.len() as u64,
-                ),
+                Ok(Some((lo, hi, res))) => {
+                    answers += chs.len() as u64;
+                    items.push(json!({"p":bytes_json(&p),"lo":lo,"hi":hi,"res":res}));
+                }
                 Ok(None) => {}
                 Err(m) => {
-                    o.panic("eqr", m);
+                    failed = Some(m);
                     break;
                 }
             }
+        }
+        match failed {
+            Some(m) => o.panic("eqr", m),
+            None => o.ev(json!({"op":"eqr","chs":bytes_json(&chs),"items":items}), answers),
         }
     }
     true
@@ -970,7 +977,10 @@ fn drive(a: &Args) {
         let signed: Vec<&'static str> = vec!["sab:sais", "sab:dc3", "sab:divsufsort", "sab:ls", "esa:bwt", "csa:dict", "dict:adaptive"];
         batches.push(Batch { name: "exh abc".into(), map: Some(map_a), texts: exhaustive(l0, map_a, "exh abc"), subjects: algos, per_run: 150, big: false });
         batches.push(Batch { name: "exh abc".into(), map: Some(map_a), texts: exhaustive(l1.min(l0), map_a, "exh abc"), subjects: other, per_run: 150, big: false });
-        batches.push(Batch { name: "exh abc".into(), map: Some(map_a), texts: exhaustive(l2.min(l0), map_a, "exh abc"), subjects: heavy, per_run: 150, big: false });
+        let heavy_main: Vec<&'static str> = heavy.iter().cloned().filter(|s| matches!(*s, "dict:adaptive" | "dict:sais")).collect();
+        let heavy_twin: Vec<&'static str> = heavy.iter().cloned().filter(|s| !heavy_main.contains(s)).collect();
+        batches.push(Batch { name: "exh abc".into(), map: Some(map_a), texts: exhaustive(l2.min(l0), map_a, "exh abc"), subjects: heavy_main, per_run: 150, big: false });
+        batches.push(Batch { name: "exh abc".into(), map: Some(map_a), texts: exhaustive((l2 - 1).min(l0), map_a, "exh abc"), subjects: heavy_twin, per_run: 150, big: false });
         batches.push(Batch { name: "exh 00 80 ff".into(), map: Some(map_b), texts: exhaustive(l2.min(l0), map_b, "exh 00 80 ff"), subjects: signed, per_run: 150, big: false });
         batches.push(Batch { name: "families".into(), map: None, texts: families(a.seed, a.thorough()), subjects: all.clone(), per_run: 12, big: false });
         batches.push(Batch {
@@ -1009,17 +1019,29 @@ fn drive(a: &Args) {
                 None
             };
             let mut rng = Rng::new(a.seed).derive(&format!("pats/{}", b.name));
+            let mut executed = 0usize;
             for (ci, t) in b.texts.iter().enumerate() {
                 if b.big && t.bytes.len() > 20_000 && (variant == "sais" || variant == "dc3") {
                     continue; // quadratic paths: keep the thorough tier within budget
                 }
-                if fam == "dict" && !matches!(variant, "adaptive" | "sais") && t.bytes.len() > 400 {
-                    continue; // the reloaded / reconfigured dictionaries run the same matcher code
+                // budget: the long family texts go to the five builder algorithms (and csa:dict, esa:bwt) in full;
+                // entry points that re-route the same constructions / the same matcher get the shorter ones
+                let tlen = t.bytes.len();
+                let twin_dict = fam == "dict" && !matches!(variant, "adaptive" | "sais");
+                if !b.big && ((twin_dict && tlen > 64) || (fam == "dict" && tlen > if a.thorough() { 300 } else { 160 })) {
+                    continue;
+                }
+                if !b.big
+                    && tlen > 400
+                    && matches!(subject, "sab:sais_noopt" | "sab:sais_par" | "sa:new" | "esa:lcp" | "csa:default" | "csa:realtime" | "csa:large")
+                    && !a.thorough()
+                {
+                    continue;
                 }
                 if b.big && t.fam.starts_with("big edge") && variant != "adaptive" {
                     continue; // the size thresholds belong to Adaptive only
                 }
-                if ci % b.per_run == 0 {
+                if executed % b.per_run == 0 {
                     tr.reset(
                         DOMAIN,
                         subject,
@@ -1029,6 +1051,7 @@ fn drive(a: &Args) {
                     st.runs += 1;
                     st.events += 1;
                 }
+                executed += 1;
                 let mut o = Out { tr: &mut tr, st: &mut *st };
                 max_len = max_len.max(t.bytes.len());
                 if b.big {
@@ -1042,7 +1065,10 @@ fn drive(a: &Args) {
                 }
                 let pats = match b.map {
                     Some(m) => patterns_small(&t.bytes, m),
-                    None => patterns(&t.bytes, if a.thorough() { 4 } else { 3 }, 48, &mut rng),
+                    None => {
+                        let cap = if fam == "dict" && t.bytes.len() > 64 && !a.thorough() { 12 } else { 48 };
+                        patterns(&t.bytes, if a.thorough() { 4 } else { 3 }, cap, &mut rng)
+                    }
                 };
                 o.ev(json!({"op":"text","fam":t.fam,"text":bytes_json(&t.bytes)}), 0);
                 let judged = match fam {
